@@ -162,6 +162,7 @@ RULES = [
     (r"linter::passes::boring_assignment::PoeticNumberLiteralTemplate::as_text::extern::repeat_n#0", "count = mod10(len) <= 10", None),
     (r"linter::passes::boring_assignment::PoeticNumberLiteralTemplate::as_text::unsafe::from_utf8_unchecked#0", "every byte pushed is one of the ASCII constants ' ', '*', '.'", "as-text-ascii"),
     (r"linter::passes::boring_assignment::PoeticNumberLiteralTemplate::estimate_text_size::\{closure#0\}::assert::overflow_add\(mod10\(\),1\)#0", "mod10(len) + 1 with len a decimal digit", None),
+    (r"linter::passes::boring_assignment::PoeticNumberLiteralTemplate::estimate_text_size::extern::sum#0", "total of at most 11 per item over the items of one template: one item per character of one f64 rendering (a few hundred characters at most)", None),
 ]
 
 
